@@ -265,6 +265,17 @@ impl BuildHasher for SeededState {
     }
 }
 
+/// `use crate::verif_hooks::shadow_std as std;` at the top of a function makes its
+/// `std::fs::read_dir` / `std::fs::remove_file` calls go through the shim, untouched.
+pub mod shadow_std {
+    pub use ::std::*;
+    pub mod fs {
+        pub use ::std::fs::*;
+
+        pub use crate::verif_hooks::fs::{read_dir, remove_file, DirEntry, FileType, ReadDir};
+    }
+}
+
 /// Drop-in replacements for `std::fs::{File, OpenOptions}`: same calls on the real file
 /// system, or on a thread-local in-memory directory (see [`fs::vfs_enable`]), plus event
 /// recording, call counting and fault injection.
@@ -366,23 +377,27 @@ pub mod fs {
             .unwrap_or_default()
     }
 
-    pub fn on_read_dir(_path: &Path) -> io::Result<()> {
+    /// `std::fs::read_dir` look-alike (see [`super::shadow_std`]).
+    pub fn read_dir<P: AsRef<Path>>(path: P) -> io::Result<ReadDir> {
+        let path = path.as_ref();
         gate(CallKind::ReadDir)?;
+        let read_dir = match target(path) {
+            Target::VirtualDir => ReadDir::Virtual(
+                vfs_list(path)
+                    .into_iter()
+                    .map(|(name, _)| name)
+                    .collect::<Vec<_>>()
+                    .into_iter(),
+            ),
+            _ => ReadDir::Real(std::fs::read_dir(path)?),
+        };
         emit(|| Event::ReadDir);
-        Ok(())
+        Ok(read_dir)
     }
 
-    /// Names of the in-memory files of `path` (nothing when `path` is a real directory).
-    pub fn virtual_dir_entries(path: &Path) -> Vec<String> {
-        match target(path) {
-            Target::VirtualDir => vfs_list(path).into_iter().map(|(name, _)| name).collect(),
-            _ => Vec::new(),
-        }
-    }
-
-    /// Returns the path the caller has to pass to `std::fs::remove_file`: `path` itself, or for
-    /// an in-memory file (removed here) a real scratch file standing in for it.
-    pub fn on_remove_file(path: &Path) -> io::Result<PathBuf> {
+    /// `std::fs::remove_file` look-alike.
+    pub fn remove_file<P: AsRef<Path>>(path: P) -> io::Result<()> {
+        let path = path.as_ref();
         gate(CallKind::Unlink)?;
         match target(path) {
             Target::VirtualFile(root, file_name) => {
@@ -391,14 +406,72 @@ pub mod fs {
                 if !existed {
                     return Err(io::Error::new(io::ErrorKind::NotFound, "no such file"));
                 }
-                emit(|| Event::Unlink { name: file_name });
-                let stand_in = path.with_file_name(".verif-unlinked");
-                std::fs::File::create(&stand_in)?;
-                Ok(stand_in)
             }
-            _ => {
-                emit(|| Event::Unlink { name: name(path) });
-                Ok(path.to_path_buf())
+            _ => std::fs::remove_file(path)?,
+        }
+        emit(|| Event::Unlink { name: name(path) });
+        Ok(())
+    }
+
+    pub enum ReadDir {
+        Real(std::fs::ReadDir),
+        Virtual(std::vec::IntoIter<String>),
+    }
+
+    impl Iterator for ReadDir {
+        type Item = io::Result<DirEntry>;
+        fn next(&mut self) -> Option<io::Result<DirEntry>> {
+            match self {
+                ReadDir::Real(read_dir) => read_dir
+                    .next()
+                    .map(|entry_res| entry_res.map(DirEntry::Real)),
+                ReadDir::Virtual(names) => names.next().map(|name| Ok(DirEntry::Virtual(name))),
+            }
+        }
+    }
+
+    pub enum DirEntry {
+        Real(std::fs::DirEntry),
+        Virtual(String),
+    }
+
+    impl DirEntry {
+        pub fn file_name(&self) -> std::ffi::OsString {
+            match self {
+                DirEntry::Real(entry) => entry.file_name(),
+                DirEntry::Virtual(name) => name.into(),
+            }
+        }
+        pub fn file_type(&self) -> io::Result<FileType> {
+            match self {
+                DirEntry::Real(entry) => entry.file_type().map(FileType::Real),
+                DirEntry::Virtual(_) => Ok(FileType::VirtualFile),
+            }
+        }
+    }
+
+    pub enum FileType {
+        Real(std::fs::FileType),
+        VirtualFile,
+    }
+
+    impl FileType {
+        pub fn is_file(&self) -> bool {
+            match self {
+                FileType::Real(file_type) => file_type.is_file(),
+                FileType::VirtualFile => true,
+            }
+        }
+        pub fn is_dir(&self) -> bool {
+            match self {
+                FileType::Real(file_type) => file_type.is_dir(),
+                FileType::VirtualFile => false,
+            }
+        }
+        pub fn is_symlink(&self) -> bool {
+            match self {
+                FileType::Real(file_type) => file_type.is_symlink(),
+                FileType::VirtualFile => false,
             }
         }
     }
